@@ -51,3 +51,477 @@ Lemma sscanf_fixed_empty dirty : parse_hwloc_gen true dirty [0] = Ok (PSet (BM [
 Proof. vm_compute. reflexivity. Qed.
 Lemma sscanf_fixed_leading_comma dirty : parse_hwloc_gen true dirty (cstr ",1") = Ok (PSet (BM [1] false)).
 Proof. vm_compute. reflexivity. Qed.
+
+(* ---------- parsers never leave the string: list format ---------- *)
+Lemma is_sep_0 : is_sep 0 = false. Proof. reflexivity. Qed.
+
+Lemma list_sscanf_loop_total s n : cstring s n ->
+  forall fuel cur begin set, cur <= n -> (N.to_nat (n - cur) < fuel)%nat ->
+  exists r, list_sscanf_loop fuel s cur begin set = Ok r.
+Proof.
+  intros Hs. induction fuel as [|fuel IH]; intros cur begin set Hcur Hfuel; [lia|].
+  cbn [list_sscanf_loop].
+  destruct (cstring_rd s n cur Hs Hcur) as [c [Hc Zc]]. unfold rdr at 1. rewrite Hc. cbn [bind].
+  destruct (N.eqb_spec c 0) as [->|Hc0]; [eauto|].
+  assert (Hlt : cur < n). { assert (cur <> n) by tauto. lia. }
+  destruct (scan_while_ok is_sep s n cur Hs Hcur is_sep_0) as [cur' [Hsc Hcur']]. rewrite Hsc. cbn [bind].
+  destruct (strtoul_ok s n cur' 0 Hs) as [v [e [Hst [He Hv]]]]; [lia|]. rewrite Hst. cbn [bind].
+  destruct (N.eqb_spec e cur') as [->|Hne]; [eauto|].
+  destruct (cstring_rd s n e Hs) as [nc [Hnc Znc]]; [lia|]. unfold rdr at 1. rewrite Hnc. cbn [bind].
+  (* the state update never reads outside *)
+  assert (St : exists st,
+    (if negb (begin =? -1)%Z then Ok (false, (-1)%Z, set_range_model set begin (to_long v))
+     else if nc =? 45 then
+       let* n1 := rdr s (N.succ e) in
+       if n1 =? 0 then Ok (true, begin, set_range_model set (to_long v) (-1))
+       else Ok (false, to_long v, set)
+     else if is_sep nc || (nc =? 0) then Ok (false, begin, bs_add (to_unsigned (to_long v)) set)
+     else Ok (false, begin, set)) = Ok st).
+  { destruct (negb (begin =? -1)%Z); [eauto|].
+    destruct (N.eqb_spec nc 45) as [->|_].
+    - assert (e <> n). { intros E. apply Znc in E. discriminate. }
+      destruct (cstring_rd s n (N.succ e) Hs) as [n1 [Hn1 _]]; [lia|].
+      unfold rdr. rewrite Hn1. cbn [bind]. destruct (n1 =? 0); eauto.
+    - destruct (is_sep nc || (nc =? 0)); eauto. }
+  destruct St as [[[stop begin'] set'] ->]. cbn [bind].
+  destruct stop; [eauto|].
+  destruct (N.eqb_spec nc 0) as [->|Hnc0]; [eauto|].
+  assert (e <> n) by tauto.
+  apply IH; lia.
+Qed.
+
+Lemma parse_list_total s n : cstring s n -> exists r, parse_list s = Ok r.
+Proof.
+  intros Hs. unfold parse_list. apply (list_sscanf_loop_total s n Hs); [lia|].
+  pose proof (cstring_len s n Hs) as H. unfold len in H. lia.
+Qed.
+
+(* ---------- taskset format ---------- *)
+Lemma no_nul_lit_inf : no_nul (bytes_of_string "0xf...f").
+Proof. repeat constructor; discriminate. Qed.
+Lemma no_nul_lit_0x : no_nul (bytes_of_string "0x").
+Proof. repeat constructor; discriminate. Qed.
+
+Lemma has_prefix_total lit s n i : no_nul (bytes_of_string lit) -> cstring s n -> i <= n ->
+  exists b, has_prefix lit s i = Ok b /\ (b = true -> i + len (bytes_of_string lit) <= n).
+Proof.
+  intros Hl Hs Hi. rewrite has_prefix_spec by exact Hl.
+  destruct (prefix_l (bytes_of_string lit) (skipn (N.to_nat i) s)) as [b|] eqn:E.
+  - exists b. split; [reflexivity|]. intros ->. eapply prefix_in_cstring; eauto.
+  - exfalso. eapply prefix_l_ok; eauto.
+Qed.
+
+Lemma In_firstn_nth {A} (b : A) : forall k l, In b (firstn k l) -> exists m, (m < k)%nat /\ nth_error l m = Some b.
+Proof.
+  induction k as [|k IH]; intros l H; [destruct H|].
+  destruct l as [|x l]; [destruct H|]. destruct H as [->|H].
+  - exists 0%nat. split; [lia|reflexivity].
+  - destruct (IH l H) as [m [Hm E]]. exists (S m). split; [lia|exact E].
+Qed.
+
+(* the bytes of a C string before its terminator contain no NUL *)
+Lemma sub_no_nul s n i k : cstring s n -> i + k <= n -> no_nul (sub s i (i + k)) /\ len (sub s i (i + k)) = k.
+Proof.
+  intros Hs Hik. pose proof (cstring_len s n Hs) as Hl.
+  assert (L : len (sub s i (i + k)) = k).
+  { unfold sub, len. rewrite firstn_length, skipn_length. unfold len in Hl. lia. }
+  split; [|exact L].
+  unfold no_nul. rewrite Forall_forall. intros b Hb.
+  unfold sub in Hb. destruct (In_firstn_nth b _ _ Hb) as [m [Hlt Em]].
+  assert (R : rd (skipn (N.to_nat i) s) (N.of_nat m) = Some b) by (unfold rd; now rewrite Nat2N.id).
+  rewrite rd_skipn in R. destruct Hs as [_ Hk].
+  destruct (Hk (i + N.of_nat m)) as [b' [Hb' Nz]]; [lia|]. congruence.
+Qed.
+
+Lemma store_opt_ok ul i v : i < N.of_nat (length ul) ->
+  exists ul', store_opt ul i v = Ok ul' /\ length ul' = length ul.
+Proof.
+  intros Hi. unfold store_opt. destruct (N.ltb_spec i (N.of_nat (length ul))); [|lia].
+  eexists. split; [reflexivity|].
+  rewrite app_length, firstn_length. cbn [length]. rewrite skipn_length. lia.
+Qed.
+
+Lemma taskset_loop_total s n infinite : cstring s n ->
+  forall fuel cur chars count ul, cur + chars = n -> count = (chars + 15) / 16 ->
+  count <= N.of_nat (length ul) -> (N.to_nat chars < fuel)%nat ->
+  exists e, taskset_sscanf_loop fuel s cur chars count infinite ul = Ok e /\ e <> LAssert.
+Proof.
+  intros Hs. induction fuel as [|fuel IH]; intros cur chars count ul Hn Hcount Hul Hfuel; [lia|].
+  cbn [taskset_sscanf_loop].
+  destruct (cstring_rd s n cur Hs) as [c [Hc Zc]]; [lia|]. unfold rdr at 1. rewrite Hc. cbn [bind].
+  destruct (N.eqb_spec c 0) as [->|Hc0]; [eexists; split; [reflexivity|discriminate]|].
+  assert (Hch : 0 < chars). { assert (cur <> n) by tauto. lia. }
+  set (tmpchars := if chars mod 16 =? 0 then 16 else chars mod 16).
+  assert (Ht : 1 <= tmpchars <= 16 /\ tmpchars <= chars /\ (chars - tmpchars) mod 16 = 0).
+  { unfold tmpchars. pose proof (N.mod_upper_bound chars 16 ltac:(discriminate)) as Hm.
+    pose proof (N.div_mod chars 16 ltac:(discriminate)) as Hd.
+    destruct (N.eqb_spec (chars mod 16) 0) as [E|E].
+    - assert (16 <= chars) by lia. repeat split; try lia.
+      replace (chars - 16) with (16 * (chars / 16 - 1)) by lia.
+      rewrite N.mul_comm. apply N.mod_mul. discriminate.
+    - repeat split; try lia.
+      replace (chars - chars mod 16) with (16 * (chars / 16)) by lia.
+      rewrite N.mul_comm. apply N.mod_mul. discriminate. }
+  destruct Ht as [Ht1 [Ht2 Ht3]].
+  pose proof (cstring_len s n Hs) as Hlen.
+  rewrite rdn_ok by lia. cbn [bind].
+  destruct (sub_no_nul s n cur tmpchars Hs) as [Hnn Hsl]; [lia|].
+  set (bytes := sub s cur (cur + tmpchars)) in *.
+  assert (Hu : cstring (bytes ++ [0]) tmpchars).
+  { rewrite <- Hsl. apply cstring_app. exact Hnn. }
+  destruct (strtoul_ok (bytes ++ [0]) tmpchars 0 16 Hu) as [v [e [Hst [He Hv]]]]; [lia|].
+  rewrite Hst. cbn [bind].
+  destruct (cstring_rd (bytes ++ [0]) tmpchars e Hu) as [nb [Hnb _]]; [lia|].
+  unfold rdr at 1. rewrite Hnb. cbn [bind].
+  destruct (negb (nb =? 0)); [eexists; split; [reflexivity|discriminate]|].
+  assert (Hc1 : 1 <= count).
+  { subst count. pose proof (N.div_mod (chars + 15) 16 ltac:(discriminate)).
+    pose proof (N.mod_upper_bound (chars + 15) 16 ltac:(discriminate)). lia. }
+  destruct (N.eqb_spec count 0) as [E|_]; [lia|].
+  match goal with |- context [store_opt ul (N.pred count) ?w] =>
+    destruct (store_opt_ok ul (N.pred count) w) as [ul' [-> Hl']]; [lia|] end.
+  cbn [bind]. apply IH; try lia.
+  (* count - 1 = ceil((chars - tmpchars) / 16) *)
+  subst count.
+  pose proof (N.div_mod (chars - tmpchars) 16 ltac:(discriminate)) as D1.
+  rewrite Ht3 in D1.
+  replace (chars + 15) with ((chars - tmpchars) / 16 * 16 + (tmpchars + 15)) by lia.
+  replace (chars - tmpchars + 15) with ((chars - tmpchars) / 16 * 16 + 15) by lia.
+  rewrite !N.div_add_l by discriminate.
+  assert ((tmpchars + 15) / 16 = 1).
+  { symmetry. apply (N.div_unique (tmpchars + 15) 16 1 (tmpchars - 1)); lia. }
+  assert (15 / 16 = 0) by reflexivity. lia.
+Qed.
+
+Lemma parse_taskset_total dirty s n : cstring s n ->
+  exists r, parse_taskset dirty s = Ok r /\ r <> PAssert.
+Proof.
+  intros Hs. unfold parse_taskset.
+  destruct (has_prefix_total "0xf...f" s n 0 no_nul_lit_inf Hs) as [pfx [-> Hp]]; [lia|]. cbn [bind].
+  match goal with |- exists r, bind ?X _ = Ok r /\ _ =>
+    assert (Hd : exists hd, X = Ok hd /\ match hd with inl _ => True | inr (cur, _) => cur <= n end) end.
+  { destruct pfx.
+    - specialize (Hp eq_refl). change (len (bytes_of_string "0xf...f")) with 7 in Hp.
+      destruct (cstring_rd s n 7 Hs) as [c [Hc _]]; [lia|]. unfold rdr. rewrite Hc. cbn [bind].
+      destruct (c =? 0); eexists; (split; [reflexivity|]); [exact I|cbv beta iota; lia].
+    - destruct (has_prefix_total "0x" s n 0 no_nul_lit_0x Hs) as [p2 [-> Hp2]]; [lia|]. cbn [bind].
+      assert (Hcur : (if p2 then 2 else 0) <= n).
+      { destruct p2; [|lia]. specialize (Hp2 eq_refl). change (len (bytes_of_string "0x")) with 2 in Hp2. lia. }
+      destruct (cstring_rd s n _ Hs Hcur) as [c [Hc _]]. unfold rdr. rewrite Hc. cbn [bind].
+      destruct (c =? 0); eexists; (split; [reflexivity|]); [exact I|cbv beta iota; exact Hcur]. }
+  destruct Hd as [hd [-> Hhd]]. cbn [bind].
+  destruct hd as [b|[cur infinite]]; [eexists; split; [reflexivity|discriminate]|].
+  rewrite (strlen_at_ok s n cur Hs Hhd). cbn [bind].
+  pose proof (cstring_len s n Hs) as Hlen. unfold len in Hlen.
+  destruct (taskset_loop_total s n infinite Hs (S (length s)) cur (n - cur) (((n - cur) * 4 + 63) / 64)
+              (repeat None (N.to_nat (((n - cur) * 4 + 63) / 64)))) as [e [-> Hne]].
+  - lia.
+  - (* (4c + 63) / 64 = (c + 15) / 16 *)
+    set (c := n - cur).
+    pose proof (N.div_mod (c + 15) 16 ltac:(discriminate)) as D.
+    pose proof (N.mod_upper_bound (c + 15) 16 ltac:(discriminate)) as M.
+    symmetry. apply (N.div_unique (c * 4 + 63) 64 ((c + 15) / 16) (4 * ((c + 15) mod 16) + 3)); lia.
+  - rewrite repeat_length. lia.
+  - lia.
+  - cbn [bind]. destruct e; try (eexists; split; [reflexivity|discriminate]). congruence.
+Qed.
+
+(* ---------- hwloc format ---------- *)
+(* number of commas of the C string from index k on *)
+Fixpoint ncommas (l : list N) : N :=
+  match l with
+  | [] => 0
+  | b :: t => if b =? 0 then 0 else (if b =? COMMA then 1 else 0) + ncommas t
+  end.
+Definition commas_from (s : list N) (k : N) : N := ncommas (skipn (N.to_nat k) s).
+
+Lemma skipn_cons_rd s k b : rd s k = Some b ->
+  skipn (N.to_nat k) s = b :: skipn (N.to_nat (N.succ k)) s.
+Proof.
+  unfold rd. rewrite N2Nat.inj_succ. revert s. induction (N.to_nat k) as [|m IH]; intros s H.
+  - destruct s; [discriminate|]. simpl in H. injection H as ->. reflexivity.
+  - destruct s as [|x s]; [discriminate|]. simpl in H. simpl. now apply IH.
+Qed.
+
+Lemma commas_step s n k : cstring s n -> k < n ->
+  exists b, rd s k = Some b /\ commas_from s k = (if b =? COMMA then 1 else 0) + commas_from s (N.succ k).
+Proof.
+  intros [_ Hk] Hlt. destruct (Hk k Hlt) as [b [Hb Nz]]. exists b. split; [exact Hb|].
+  unfold commas_from. rewrite (skipn_cons_rd s k b Hb). cbn [ncommas].
+  apply N.eqb_neq in Nz. now rewrite Nz.
+Qed.
+Lemma commas_end s n : cstring s n -> commas_from s n = 0.
+Proof.
+  intros [H0 _]. unfold commas_from. rewrite (skipn_cons_rd s n 0 H0). reflexivity.
+Qed.
+Lemma commas_mono s n a b : cstring s n -> a <= b <= n -> commas_from s b <= commas_from s a.
+Proof.
+  intros Hs [Hab Hbn]. remember (N.to_nat (b - a)) as d eqn:Ed. revert a Hab Ed.
+  induction d as [|d IH]; intros a Hab Ed.
+  - assert (a = b) by lia. subst. lia.
+  - destruct (commas_step s n a Hs) as [c [_ E]]; [lia|]. rewrite E.
+    specialize (IH (N.succ a)). assert (commas_from s b <= commas_from s (N.succ a)) by (apply IH; lia). lia.
+Qed.
+Lemma commas_none s n a b : cstring s n -> a <= b <= n ->
+  (forall m, a <= m < b -> rd s m <> Some COMMA) -> commas_from s a = commas_from s b.
+Proof.
+  intros Hs [Hab Hbn]. remember (N.to_nat (b - a)) as d eqn:Ed. revert a Hab Ed.
+  induction d as [|d IH]; intros a Hab Ed Hno.
+  - assert (a = b) by lia. now subst.
+  - destruct (commas_step s n a Hs) as [c [Hc E]]; [lia|]. rewrite E.
+    destruct (N.eqb_spec c COMMA) as [->|_]; [exfalso; apply (Hno a); [lia|exact Hc]|].
+    rewrite N.add_0_l. apply IH; try lia. intros m Hm. apply Hno. lia.
+Qed.
+
+Lemma count_commas_spec s n : cstring s n ->
+  forall fuel p count, p <= n -> (N.to_nat (n - p) < fuel)%nat ->
+  count_commas fuel s p count = Ok (count + commas_from s p).
+Proof.
+  intros Hs. induction fuel as [|fuel IH]; intros p count Hp Hfuel; [lia|].
+  cbn [count_commas]. destruct (strchr_ok s n p COMMA Hs Hp) as [r [-> Hr]]. cbn [bind].
+  destruct r as [j|].
+  - destruct Hr as [Hj [Hcj Hno]].
+    assert (j <> n). { intros ->. destruct Hs as [H0 _]. rewrite H0 in Hcj. discriminate. }
+    rewrite IH by lia.
+    rewrite (commas_none s n p j Hs) by (try lia; exact Hno).
+    destruct (commas_step s n j Hs) as [c [Hc E]]; [lia|]. rewrite E.
+    rewrite Hcj in Hc. injection Hc as <-. rewrite N.eqb_refl. f_equal. lia.
+  - destruct Hr as [_ Hno].
+    rewrite (commas_none s n p n Hs) by (try lia; intros m Hm; apply Hno; lia).
+    rewrite (commas_end s n Hs). f_equal. lia.
+Qed.
+
+Lemma hwloc_loop_total s n count0 : cstring s n ->
+  forall fuel cur count accum ul, cur <= n -> (N.to_nat (n - cur) < fuel)%nat ->
+  count <= count0 -> N.of_nat (length ul) = (count0 + 1) / 2 ->
+  1 + commas_from s cur <= count ->
+  exists e, hwloc_sscanf_loop fuel s cur count accum ul = Ok e /\ e <> LAssert.
+Proof.
+  intros Hs. induction fuel as [|fuel IH]; intros cur count accum ul Hcur Hfuel Hc0 Hul Hcnt; [lia|].
+  cbn [hwloc_sscanf_loop].
+  destruct (cstring_rd s n cur Hs Hcur) as [c [Hc Zc]]. unfold rdr at 1. rewrite Hc. cbn [bind].
+  destruct (N.eqb_spec c 0) as [->|Hcz]; [eexists; split; [reflexivity|discriminate]|].
+  destruct (strtoul_ok s n cur 16 Hs Hcur) as [v [e [-> [He Hv]]]]. cbn [bind].
+  destruct (N.eqb_spec count 0) as [E|_]; [lia|].
+  set (count' := N.pred count).
+  set (accum' := N.lor accum ((v * 2 ^ ((count' * 32) mod 64)) mod W64)).
+  assert (St : exists ul' acc',
+    (if count' mod 2 =? 0
+     then let* ul' := store_opt ul (count' / 2) accum' in Ok (ul', 0)
+     else Ok (ul, accum')) = Ok (ul', acc') /\ length ul' = length ul).
+  { destruct (count' mod 2 =? 0); [|eauto].
+    destruct (store_opt_ok ul (count' / 2) accum') as [ul' [-> Hl']].
+    - rewrite Hul. unfold count'.
+      assert (N.pred count / 2 < (count0 + 1) / 2); [|assumption].
+      apply N.div_lt_upper_bound; [discriminate|].
+      pose proof (N.div_mod (count0 + 1) 2 ltac:(discriminate)).
+      pose proof (N.mod_upper_bound (count0 + 1) 2 ltac:(discriminate)). lia.
+    - cbn [bind]. eauto. }
+  destruct St as [ul' [acc' [-> Hl']]]. cbn [bind].
+  destruct (cstring_rd s n e Hs) as [nc [Hnc Znc]]; [lia|]. unfold rdr at 1. rewrite Hnc. cbn [bind].
+  destruct (N.eqb_spec nc COMMA) as [->|Hncc]; cbn [negb].
+  - assert (e <> n). { intros E. apply Znc in E. discriminate. }
+    assert (Hcm : 1 + commas_from s (N.succ e) <= N.pred count).
+    { (* one comma at e is consumed *)
+      destruct (commas_step s n e Hs) as [c' [Hc' E]]; [lia|].
+      rewrite Hnc in Hc'. injection Hc' as <-. rewrite N.eqb_refl in E.
+      pose proof (commas_mono s n cur e Hs ltac:(lia)). lia. }
+    apply IH; unfold count'; try lia.
+    all: try (rewrite Hl'; exact Hul).
+  - destruct (negb (nc =? 0) || (0 <? count')); eexists; (split; [reflexivity|discriminate]).
+Qed.
+
+(* the hypothesis excluding the two refuted classes: the string is not empty
+   and does not start with a comma *)
+Definition hwloc_sscanf_safe (s : list N) : Prop := exists b, rd s 0 = Some b /\ b <> 0 /\ b <> COMMA.
+
+Lemma parse_hwloc_gen_total fixed dirty s n : cstring s n ->
+  (fixed = false -> hwloc_sscanf_safe s) ->
+  exists r, parse_hwloc_gen fixed dirty s = Ok r /\ r <> PAssert.
+Proof.
+  intros Hs Hsafe. unfold parse_hwloc_gen.
+  pose proof (cstring_len s n Hs) as Hlen. unfold len in Hlen.
+  (* the comma count equals 1 + commas of the whole string in both variants *)
+  assert (Cc : count_commas (S (length s)) s (if fixed then 0 else 1) 1 = Ok (1 + commas_from s 0)).
+  { destruct fixed.
+    - apply (count_commas_spec s n Hs); lia.
+    - destruct (Hsafe eq_refl) as [b [Hb [Nz Nc]]].
+      assert (n <> 0). { intros ->. destruct Hs as [H0 _]. congruence. }
+      rewrite (count_commas_spec s n Hs) by lia.
+      destruct (commas_step s n 0 Hs) as [b' [Hb' E]]; [lia|]. rewrite Hb in Hb'. injection Hb' as <-.
+      apply N.eqb_neq in Nc. rewrite Nc in E. rewrite E. reflexivity. }
+  rewrite Cc. cbn [bind].
+  destruct (has_prefix_total "0xf...f" s n 0 no_nul_lit_inf Hs) as [pfx [Hpe Hp]]; [lia|].
+  rewrite Hpe. cbn [bind].
+  match goal with |- exists r, bind ?X _ = Ok r /\ _ =>
+    assert (Hd : exists hd, X = Ok hd /\
+      match hd with None => True
+      | Some (cur, _, count) => cur <= n /\ 1 + commas_from s cur <= count end) end.
+  { destruct pfx.
+    - specialize (Hp eq_refl). change (len (bytes_of_string "0xf...f")) with 7 in Hp.
+      destruct (cstring_rd s n 7 Hs) as [c [Hc Zc]]; [lia|]. unfold rdr. rewrite Hc. cbn [bind].
+      destruct (N.eqb_spec c COMMA) as [->|]; cbn [negb]; eexists; (split; [reflexivity|]); [|exact I].
+      cbv beta iota.
+      assert (7 <> n). { intros E. apply Zc in E. discriminate. }
+      split; [lia|].
+      (* commas_from 0 >= 1 + commas_from 8 *)
+      destruct (commas_step s n 7 Hs) as [c' [Hc' E]]; [lia|]. rewrite Hc in Hc'. injection Hc' as <-.
+      rewrite N.eqb_refl in E. change (N.succ 7) with 8 in E.
+      pose proof (commas_mono s n 0 7 Hs ltac:(lia)). lia.
+    - eexists. split; [reflexivity|]. cbv beta iota. split; lia. }
+  destruct Hd as [hd [-> Hhd]]. cbn [bind].
+  destruct hd as [[[cur infinite] count]|]; [|eexists; split; [reflexivity|discriminate]].
+  destruct Hhd as [Hcur Hcnt].
+  destruct (hwloc_loop_total s n count Hs (S (length s)) cur count
+              (if infinite && negb (count mod 2 =? 0) then HI32MASK else 0)
+              (repeat None (N.to_nat ((count + 1) / 2)))) as [e [-> Hne]]; try lia.
+  - rewrite repeat_length. lia.
+  - cbn [bind]. destruct e; try (eexists; split; [reflexivity|discriminate]). congruence.
+Qed.
+
+(* ---------- list printer: the fuel is always enough ---------- *)
+Lemma bs_next_some s from b : bs_next s from = Some b -> mem b s = true /\ from <= b.
+Proof.
+  unfold bs_next. intros H. apply bs_first_some in H. destruct H as [H _].
+  rewrite mem_inter, mem_from in H. apply andb_true_iff in H. destruct H as [H1 H2].
+  apply N.leb_le in H2. auto.
+Qed.
+Lemma mem_above_size s i : N.size (fin s) <= i -> mem i s = inf s.
+Proof.
+  intros H. unfold mem. destruct (fin s) as [|p] eqn:E.
+  - rewrite N.bits_0. apply xorb_false_l.
+  - rewrite N.bits_above_log2; [apply xorb_false_l|].
+    rewrite N.size_log2 in H by discriminate. lia.
+Qed.
+
+Lemma list_loop_fuel s : forall fuel from nc,
+  (N.to_nat (N.succ (N.size (fin s)) - from) < fuel)%nat -> list_loop fuel s from nc <> None.
+Proof.
+  induction fuel as [|fuel IH]; intros from nc Hf; [lia|].
+  cbn [list_loop]. destruct (bs_next s from) as [b|] eqn:Eb; [|discriminate].
+  apply bs_next_some in Eb. destruct Eb as [Mb Hb].
+  destruct (bs_next_unset s (N.succ b)) as [e|] eqn:Ee; [|discriminate].
+  unfold bs_next_unset in Ee. apply bs_next_some in Ee. destruct Ee as [Me He].
+  rewrite mem_compl in Me. apply negb_true_iff in Me.
+  (* b is a member, e > b is not: both cannot lie above the size of fin *)
+  assert (Hlt : from < N.succ (N.size (fin s))).
+  { destruct (N.lt_ge_cases from (N.succ (N.size (fin s)))) as [|Hge]; [assumption|exfalso].
+    rewrite mem_above_size in Mb by lia. rewrite mem_above_size in Me by lia. congruence. }
+  specialize (IH e true).
+  destruct (list_loop fuel s e true) eqn:El; [discriminate|].
+  exfalso. apply IH; [lia|reflexivity].
+Qed.
+
+Lemma pieces_list_some s : exists ps, pieces_list s = Some ps.
+Proof.
+  unfold pieces_list. destruct (list_loop (list_fuel s) s 0 false) eqn:E; [eauto|].
+  exfalso. revert E. apply list_loop_fuel. unfold list_fuel. lia.
+Qed.
+
+Lemma print_contract_list_l b init :
+  exists text, text_list (abs b) = Some text /\ contract text init (print_list b init).
+Proof.
+  unfold text_list, print_list. destruct (pieces_list_some (abs b)) as [ps ->].
+  exists (concat ps). split; [reflexivity|]. apply snprintf_pieces_contract.
+Qed.
+
+
+(* ---------- executable forms of round trip / stability, and bounded sweeps ---------- *)
+Definition DIRTY : N := 11936128518282651045.      (* 0xa5a5a5a5a5a5a5a5, as in the harness *)
+
+Definition rt_hwloc_ok (b : bm) : bool :=
+  match parse_hwloc DIRTY (text_hwloc b ++ [0]) with
+  | Ok (PSet b') => bs_eqb (abs b') (abs b) && bm_wfb b'
+  | _ => false
+  end.
+Definition rt_taskset_ok (b : bm) : bool :=
+  match parse_taskset DIRTY (text_taskset b ++ [0]) with
+  | Ok (PSet b') => bs_eqb (abs b') (abs b) && bm_wfb b'
+  | _ => false
+  end.
+Definition rt_list_ok (s : bset) : bool :=
+  match text_list s with
+  | Some t => match parse_list (t ++ [0]) with Ok (Some s') => bs_eqb s' s | _ => false end
+  | None => false
+  end.
+
+(* accepted strings are stable under print-then-parse *)
+Definition stable_hwloc_ok (s : list N) : bool :=
+  match parse_hwloc DIRTY s with Ok (PSet b) => rt_hwloc_ok b | _ => true end.
+Definition stable_taskset_ok (s : list N) : bool :=
+  match parse_taskset DIRTY s with Ok (PSet b) => rt_taskset_ok b | _ => true end.
+Definition stable_list_ok (s : list N) : bool :=
+  match parse_list s with Ok (Some b) => rt_list_ok b | _ => true end.
+
+(* all lists of length <= k over a pool *)
+Fixpoint lists_upto {A} (k : nat) (pool : list A) : list (list A) :=
+  match k with
+  | O => [[]]
+  | S k' => [] :: flat_map (fun l => map (fun x => x :: l) pool) (lists_upto k' pool)
+  end.
+Lemma In_lists_upto {A} (pool : list A) : forall k l,
+  Forall (fun x => In x pool) l -> (length l <= k)%nat -> In l (lists_upto k pool).
+Proof.
+  induction k as [|k IH]; intros l Hl Hk.
+  - destruct l; [now left|simpl in Hk; lia].
+  - destruct l as [|x l]; [now left|]. right. inversion Hl as [|x' l' Hx Hl']; subst.
+    apply in_flat_map. exists l. split; [apply IH; [exact Hl'|simpl in Hk; lia]|].
+    apply in_map_iff. now exists x.
+Qed.
+
+Definition WORD_POOL : list N :=
+  [0; 1; FULL; FULL32; HI32MASK; 2147483648; 4294967296; 9223372036854775808;
+   18446744073709551614; 18446744069414584321; 8589934591; DIRTY].
+Definition BM_DOMAIN : list bm :=
+  flat_map (fun ws => [BM ws false; BM ws true]) (lists_upto 3 WORD_POOL).
+
+Lemma In_BM_DOMAIN b : Forall (fun w => In w WORD_POOL) (bm_words b) -> (length (bm_words b) <= 3)%nat ->
+  In b BM_DOMAIN.
+Proof.
+  intros Hw Hl. unfold BM_DOMAIN. apply in_flat_map. exists (bm_words b).
+  split; [now apply In_lists_upto|]. destruct b as [ws [|]]; simpl; auto.
+Qed.
+
+Lemma rt_sweep :
+  forallb (fun b => rt_hwloc_ok b && rt_taskset_ok b && rt_list_ok (abs b)) BM_DOMAIN = true.
+Proof. vm_compute. reflexivity. Qed.
+
+Lemma roundtrip_bounded b :
+  Forall (fun w => In w WORD_POOL) (bm_words b) -> (length (bm_words b) <= 3)%nat ->
+  rt_hwloc_ok b = true /\ rt_taskset_ok b = true /\ rt_list_ok (abs b) = true.
+Proof.
+  intros Hw Hl. pose proof rt_sweep as H. rewrite forallb_forall in H.
+  specialize (H b (In_BM_DOMAIN b Hw Hl)).
+  apply andb_true_iff in H. destruct H as [H H3]. apply andb_true_iff in H. tauto.
+Qed.
+
+(* '0' 'x' 'f' '.' ',' '1' '-' ' ' *)
+Definition CHAR_POOL : list N := [48; 120; 102; 46; 44; 49; 45; 32].
+(* list format: a '-' that strtoul would take as a sign (not preceded by a digit)
+   yields indexes near 2^32 or 2^64: legal for the C code (which then allocates
+   512MB) but not computable inside Coq; the bounded sweep leaves them out *)
+Fixpoint safe_list_from (prev_digit : bool) (p : list N) : bool :=
+  match p with
+  | [] => true
+  | c :: t => if (c =? 45) && negb prev_digit then false else safe_list_from (isdigit c) t
+  end.
+Definition safe_list := safe_list_from false.
+
+Lemma stable_sweep :
+  forallb (fun p => let s := p ++ [0] in
+                    (match parse_hwloc DIRTY s with Ok PAssert | Oob => true | _ => stable_hwloc_ok s end)
+                    && stable_taskset_ok s && (if safe_list p then stable_list_ok s else true))
+          (lists_upto 5 CHAR_POOL) = true.
+Proof. vm_compute. reflexivity. Qed.
+
+Lemma stable_bounded p :
+  Forall (fun c => In c CHAR_POOL) p -> (length p <= 5)%nat ->
+  stable_hwloc_ok (p ++ [0]) = true /\ stable_taskset_ok (p ++ [0]) = true /\
+  (safe_list p = true -> stable_list_ok (p ++ [0]) = true).
+Proof.
+  intros Hc Hl. pose proof stable_sweep as H. rewrite forallb_forall in H.
+  specialize (H p (In_lists_upto CHAR_POOL 5 p Hc Hl)). cbv zeta in H.
+  apply andb_true_iff in H. destruct H as [H H3]. apply andb_true_iff in H. destruct H as [H1 H2].
+  split; [|split; [exact H2|intros Hs; now rewrite Hs in H3]]. unfold stable_hwloc_ok in *.
+  destruct (parse_hwloc DIRTY (p ++ [0])) as [[b| |]|]; auto.
+Qed.
